@@ -17,6 +17,9 @@ from gen_ssb import has_test_only_cycle, ssb_candidates, ssb_skeleton, wf_ssb  #
 from shrink import shrink  # noqa: E402
 
 
+LOOP_FINDING = "loop builder (SsbGraphMinimizer.build_loops) writes a wrong forever loop"
+
+
 def fails_now(c: dict) -> bool:
     if wf_ssb(c["ops"]) is not None:
         return False
@@ -67,6 +70,7 @@ def main() -> None:
     failing.sort(key=lambda t: t[0])
     budget = 16 if q else 40
     seen: set[str] = set()
+    loop_hits = 0
     for n, (_, rec, why) in enumerate(failing):
         c = rec["case"]
         cur = {"ops": c.ops, "infos": c.infos, "coros": c.coros}
@@ -75,11 +79,15 @@ def main() -> None:
         sig = ssb_skeleton(cur["ops"])
         srec0 = run_pipeline([Case("shrunk", cur["ops"], cur["infos"], cur["coros"])])[0]
         et = srec0.get("eq_text", {})
-        if has_test_only_cycle(cur["ops"]):
-            sig = "cycle of tests and jumps without any operation"
-        elif et.get("r") == "fail" and et.get("pair", [None])[0] == 1 and srec0.get("recompiled", {}).get("ok"):
-            # node 1 of a source graph is the implicit return at the end of a routine
-            sig = "text runs off the end of a routine where the input goes on"
+        # the recorded finding is tied to a call site: the text contains a `forever` loop, is wrong, and is right when the loop
+        # builder is switched off (the witnesses of the corpus always count as what they are)
+        text0 = srec0["dec"].get("text") or ""
+        if "forever" in text0 and not c.name.startswith("corpus:"):
+            nl = run_pipeline([Case("without-loop-builder", cur["ops"], cur["infos"], cur["coros"])],
+                              dec_task="decomp:decompile_without_loop_builder")[0]
+            if nl["dec"]["ok"] and not nl["fallback"] and judge_c02(nl) is None:
+                sig = LOOP_FINDING
+                loop_hits += 1
         if sig in seen and n >= budget:
             continue
         seen.add(sig)
@@ -88,6 +96,12 @@ def main() -> None:
         run.fail(sig, swhy, {"case": c.name, "input": cur, "text": srec["dec"].get("text"),
                              "original_input": {"ops": c.ops, "infos": c.infos, "coros": c.coros},
                              "recompiled": srec.get("recompiled", {}).get("ops")})
+    # the recorded finding is rare (a handful of inputs in a thorough run); if the loop builder fails far more often than on
+    # the tree on which it was recorded, something else has happened to it
+    limit = 3 if q else 15
+    if loop_hits > limit:
+        run.fail("loop builder fails far more often than recorded", f"{loop_hits} generated routine sets are decompiled wrongly through "
+                 f"SsbGraphMinimizer.build_loops (recorded extent: at most {limit} in a {run.tier} run)", {"count": loop_hits})
     run.assume("well-formedness of inputs = gen_ssb.wf_ssb (DESIGN 3.2a); dungeon-mode 0..3 <-> constant normalised on both sides")
     run.finish(rule="G_ssb: real compiler outputs of G_prog programs, block re-layouts of those (with and without a leading "
                     "Jump), random op lists with arbitrary in-range jumps; filtered by wf_ssb; non-trivial = at least 3 ops")
